@@ -42,6 +42,13 @@ def chars(s):
     return list(s)
 
 
+def pat_abs(text):
+    """Abstract form of a fixed-length pattern: optional ^, characters or '.', optional $."""
+    s, e = text.startswith('^'), text.endswith('$')
+    core = text[1 if s else 0:len(text) - (1 if e else 0)]
+    return {'s': s, 'e': e, 'k': list(core)}
+
+
 XSD_OK = {'start_sequence': ['2', '0', '5', '-1', '127', '-128'], 'stop_sequence': ['3', '0', '-1', '7'],
           'required': ['true', 'false', '1', '0'], 'wait_exit': ['true', 'false', '1', '0'],
           'expected_loading': ['50', '0', '100', '1'], 'starting_failure_strategy': ['ABORT', 'CONTINUE', 'STOP'],
@@ -70,11 +77,14 @@ def gen_doc(rnd, valid=False):
         doc['models'].append({'key': name, 'ref': rnd.choice(['', '', 'm1', 'm2', 'm3', 'mx']),
                               'a': gen_attrs(rnd, ATTRS, valid=valid)})
     app_keys = rnd.sample([(False, 'abc'), (False, 'ab'), (True, 'a'), (True, 'b'), (True, 'bc'), (True, 'ab'),
-                           (True, 'c'), (False, 'abc'), (True, 'bc')], rnd.randrange(1, 4))
+                           (True, 'c'), (False, 'abc'), (True, 'bc'), (True, '^a'), (True, 'c$'), (True, '^.b'),
+                           (True, '^abc$'), (True, 'b.')], rnd.randrange(1, 4))
     for pat, key in app_keys:
         progs = []
         for ppat, pkey in rnd.sample([(False, 'pq'), (False, 'pqr'), (False, 'q'), (True, 'p'), (True, 'q'), (True, 'qr'),
-                                      (True, 'pq'), (True, 'r'), (True, 'pqr'), (False, 'pq'), (True, 'qr')],
+                                      (True, 'pq'), (True, 'r'), (True, 'pqr'), (False, 'pq'), (True, 'qr'),
+                                      (True, '^p'), (True, '^pq$'), (True, 'q.'), (True, 'r$'), (True, '^.q'),
+                                      (True, '^q'), (True, '.r$')],
                                      rnd.randrange(0, 5)):
             progs.append({'pat': ppat, 'key': pkey, 'ref': rnd.choice(['', '', 'm1', 'm2', 'm3', 'mx']),
                           'a': gen_attrs(rnd, ATTRS, valid=valid)})
@@ -130,8 +140,10 @@ def abstract(doc):
         return {n: tok(n, a.get(n)) for n in names}
     return {'aliases': [{'name': n, 'ids': [t.strip() for t in ids.split(',')]} for n, ids in doc['aliases']],
             'models': [{'key': chars(m['key']), 'ref': chars(m['ref']), 'a': attrs(m['a'], ATTRS)} for m in doc['models']],
-            'apps': [{'pat': a['pat'], 'key': chars(a['key']), 'a': attrs(a['a'], APP_ATTRS),
-                      'progs': [{'pat': p['pat'], 'key': chars(p['key']), 'ref': chars(p['ref']),
+            'apps': [{'pat': a['pat'], 'key': pat_abs(a['key']) if a['pat'] else chars(a['key']),
+                      'a': attrs(a['a'], APP_ATTRS),
+                      'progs': [{'pat': p['pat'], 'key': pat_abs(p['key']) if p['pat'] else chars(p['key']),
+                                 'ref': chars(p['ref']),
                                  'a': attrs(p['a'], ATTRS)} for p in a['progs']]} for a in doc['apps']],
             'qapp': chars(doc['qapp']), 'qproc': chars(doc['qproc']), 'ref': doc['ref']}
 
@@ -223,7 +235,7 @@ def gen_opts(rnd):
     if rnd.random() < 0.5:
         o['stats_periods'] = rnd.choice(OPT_PERIODS)
     o['_core'] = rnd.random() < 0.5
-    o['_list'] = rnd.random() < 0.6
+    o['_list'] = rnd.choice([True, True, False, 'blank', 'commas'])
     return o
 
 
@@ -255,7 +267,7 @@ def abstract_opts(o):
     out['synchro_options'] = lst(o.get('synchro_options'))
     out['stats_periods'] = lst(o.get('stats_periods'))
     out['has_core'] = o['_core']
-    out['has_list'] = o['_list']
+    out['has_list'] = o['_list'] is True          # (present but blank = an empty list)
     return out
 
 
@@ -268,8 +280,12 @@ def effective_real(supervisord, logger, o):
     cfg = {k: v for k, v in o.items() if not k.startswith('_')}
     if o['_core']:
         cfg['core_identifiers'] = 'n1,n2'
-    if o['_list']:
+    if o['_list'] is True:
         cfg['supvisors_list'] = 'n1,n2,n3'
+    elif o['_list'] == 'blank':
+        cfg['supvisors_list'] = ''
+    elif o['_list'] == 'commas':
+        cfg['supvisors_list'] = ' , ,'
     try:
         opt = SupvisorsOptions(supervisord, logger, **cfg)      # (the constructor ends with check_options)
     except ValueError as exc:
@@ -329,6 +345,46 @@ def spread_cases(v):
                                 f'documented {want} (Rules.tla Spread)', {'spread': text, 'k': k})
         finally:
             c.close()
+    # a homogeneous group that grows (update_numprocs 2 -> 4) after a first assignment: the new processes continue
+    # the spreading ('#', all instances)
+    rules = ('<?xml version="1.0" encoding="UTF-8" standalone="no"?><root><application name="hg"><programs>'
+             '<program pattern="h"><identifiers>#</identifiers><start_sequence>1</start_sequence></program></programs>'
+             '</application></root>')
+    cfg = cl.Config(n=3, sync=('LIST', 'TIMEOUT'))
+    c = cl.make_cluster(cfg, programs=[{'name': 'h', 'groups': ['hg'], 'numprocs': 2}], rules_xml=rules)
+    try:
+        c.boot_all()
+        for _ in range(9):
+            c.round()
+        c.rpc('n1', 'start_application', 'CONFIG', 'hg', False)
+        for _ in range(3):
+            c.round()
+        for node in ('n1', 'n2', 'n3'):
+            res = c.rpc(node, 'update_numprocs', 'h', 4, False)
+            if res[0] != 'ok':
+                raise MachineryFailure(f'C18 spread: update_numprocs on {node} -> {res}')
+            for _ in range(2):
+                c.round()
+        c.rpc('n1', 'restart_application', 'CONFIG', 'hg', False)
+        for _ in range(6):
+            c.round()
+            for nn, node in c.nodes.items():
+                for ns, proc in list(node.processes()):
+                    if proc.state == 40 and proc.pid:
+                        c.proc_killed(nn, ns)
+        procs = sorted(ns for ns, _ in c.nodes['n1'].processes() if ns.startswith('hg:'))
+        if len(procs) != 4:
+            raise MachineryFailure(f'C18 spread: {procs} after update_numprocs')
+        ref = ['n1', 'n2', 'n3']
+        for k, ns in enumerate(procs):
+            res = c.rpc('n1', 'get_process_rules', ns)
+            got = [c.nick(x) for x in res[1][0]['identifiers']] if res[0] == 'ok' else res
+            n += 1
+            if got != [ref[k % 3]]:
+                v.violation(f"'#' on a homogeneous group grown from 2 to 4: process #{k} ({ns}) resolves to {got}, "
+                            f'documented {[ref[k % 3]]} (Rules.tla Spread)', {'spread': 'grown', 'k': k})
+    finally:
+        c.close()
     return n
 
 
@@ -385,7 +441,10 @@ def main(tier, seed, replay=None):
         c.boot_all()
         node = c.nodes['n1']
         if True:
+            gone = False
             for i, d in enumerate(docs, 1):
+                if gone:
+                    break
                 path = os.path.join(sc, 'rules_doc.xml')
                 with open(path, 'w') as f:
                     f.write(render(d))
@@ -396,10 +455,8 @@ def main(tier, seed, replay=None):
                     if c.hung:
                         v.violation(f'rule lookup did not terminate ({mode}) for {d["qapp"]}:{d["qproc"]}',
                                     {'doc': d, 'mode': mode})
-                        docs, opts = [], []          # the instance is gone: report what was found
+                        gone = True          # the instance is gone: report what was found
                         break
-                if not docs:
-                    break
                     n_eval += 1
                     if res[0] == 'refused':
                         refused[mode] += 1
@@ -426,6 +483,8 @@ def main(tier, seed, replay=None):
                             v.violation(f'application rules of {d["qapp"]} ({mode}): code {app}, specification admits '
                                         f'{e["app"]}; document:\\n{render(d)[:1500]}', {'doc': d, 'mode': mode})
             for i, o in enumerate(opts, 1):
+                if gone:
+                    break
                 with c.enter('n1'):
                     got = effective_real(node.supervisord, node.logger, o)
                 n_eval += 1
